@@ -271,7 +271,15 @@ fn linear_all(ctx: &Ctx, sink: &mut Sink) {
     }
     let ti = rng.range(0, 23);
     if let Some((a, b)) = ab(&mut rng, 24 * y + ti, 24 + 1, 24 * 9999 + 23, a0, b0) {
-      lin(sink, 107, catch(|| SolarTerm::from_index(y as isize, ti as isize)), a, b, |x, n| x.next(n as isize), |x| vec![x.get_year() as i64, x.get_index() as i64]);
+      // the projection carries the term's own day, so that a value whose label and instant disagree is seen; every other
+      // sample constructs the term with a RAW index outside 0..23 (the constructor carries it into the year)
+      let raw = if k % 2 == 1 { ti + 24 * rng.range(-2, 2) } else { ti };
+      let ry = y - (raw - ti) / 24;
+      if ry >= 2 && ry <= 9998 {
+        linc(sink, 107, catch(|| SolarTerm::from_index(ry as isize, raw as isize)), a, b, |x, n| x.next(n as isize),
+          |x| vec![x.get_year() as i64, x.get_index() as i64, (x.get_cursory_julian_day() + 2451545.5).floor() as i64],
+          |x| SolarTerm::from_index(x.get_year(), x.get_index() as isize));
+      }
     }
     // sexagenary months: years -1..9999
     let sy = if edge { *rng.pick(&[-1i64, 0, 1, 9999]) } else { rng.range(-1, 9999) };
